@@ -738,7 +738,16 @@ def flood_case(ctx, case):
     P11.flood_case(ctx, case)
 
 
-COMPONENTS = {'flood': flood_case, 'burst': burst_case,
+def handoff_case(ctx, case):
+    """'recovered ... as exactly the same sequence ... not reordered' when
+    the sequence was written by two threads one after the other (C12's
+    hand-over scenario: user thread, then a listener, then the user again)."""
+    from props import c12_writers as P12
+    P12.handoff_case(ctx, case)
+
+
+COMPONENTS = {'flood': flood_case, 'handoff': handoff_case,
+              'burst': burst_case,
               'writer': writer_case, 'reader': reader_case,
               'loop': loop_case, 'fuzz_stream': fuzz_stream_case,
               'sessions': sessions_case}
@@ -1016,10 +1025,22 @@ def t_flood(ctx, version, compress, n, who):
     ctx.sample(case, 'flood')
 
 
+def t_handoff(ctx):
+    k = 0
+    for v in (757, 47):
+        for n, m in ((3, 1), (60, 3)):
+            for first in ('user', 'listener'):
+                k += 1
+                handoff_case(ctx, {'version': v, 'n': n, 'm': m,
+                                   'first': first,
+                                   'compress': [None, 256][k % 2]})
+
+
 def tasks(tier):
     q = tier == 'quick'
     ncomb = len(FAMILY) * len(MODES) * 2
     tl = [('threshold_edges', t_threshold_edges, {}),
+          ('handoff', t_handoff, {}),
           ('sessions', t_sessions, dict(n=40 if q else 1500)),
           ('burst', t_burst, dict(n=40 if q else 1500)),
           ('mutated_streams', t_fuzz_hyp, dict(n=400 if q else 20000))]
